@@ -375,9 +375,25 @@ def gen_lifecycle(src):
     methods = ['start_stage', 'end_stage', 'uses', 'transfer', 'create_container', 'create_solution',
                'create_solution_from', 'remove', 'dilute', 'fill_to', 'bake']
     rows = []
+    def inline_helpers(body):
+        """a statement `self._helper(...)` whose method consists of state guards only stands for those guards"""
+        out = []
+        for st in body:
+            if (isinstance(st, ast.Expr) and isinstance(st.value, ast.Call) and isinstance(st.value.func, ast.Attribute)
+                    and isinstance(st.value.func.value, ast.Name) and st.value.func.value.id == 'self'):
+                try:
+                    h = nodoc(src.method('Recipe', st.value.func.attr).body)
+                except Unsupported:
+                    h = None
+                if h and all(guard_kind(src, x) is not None for x in h):
+                    out.extend(h)
+                    continue
+            out.append(st)
+        return out
+
     for m in methods:
         f = src.method('Recipe', m)
-        body = nodoc(f.body)
+        body = inline_helpers(nodoc(f.body))
         guards = []
         first_locked = None
         for idx, st in enumerate(body):
@@ -399,6 +415,11 @@ def gen_lifecycle(src):
                    not any('self.steps.append' in ast.unparse(st) for st in body[:next(
                        (k for k, st in enumerate(body) if 'self.uses(' in ast.unparse(st)), 0)])
         others = [g[0] for idx, g in guards if g[0] != 'GLocked']
+        if not locked_direct and not via_uses:
+            # reading the text, no lock guard is visible in this method: that may be a missing guard or a guard written in a way
+            # this reader does not follow (decorator, helper with other statements ...): say so instead of claiming "no guard";
+            # the extraction by probing (symex.py) then decides from the behaviour
+            raise Unsupported(f"Recipe.{m}: no lock guard recognised at the head of the method")
         rows.append((m, locked_direct, locked_exc or '', via_uses, others))
     out = [f"(* GENERATED by translator/py2coq.py from {src.path} -- do not edit *)",
            "Require Import Base GenBase.", "Open Scope string_scope.",
